@@ -312,18 +312,23 @@ Section Invariant.
 End Invariant.
 
 (* ------------------------------------------------------------------ the same with a premise on client calls *)
-Definition hon_label2 (HonW : env -> nat -> woracle -> worker -> Prop) (OkC : client -> Prop) (s : sys) (l : mlabel) : Prop :=
+(* the premise on a client call may depend on the state in which the call is made *)
+Definition hon_label2 (HonW : env -> nat -> woracle -> worker -> Prop) (OkC : sys -> client -> Prop) (s : sys) (l : mlabel) : Prop :=
   match l with
-  | MClient c => OkC c
+  | MClient c => OkC s c
   | _ => hon_label HonW s l
   end.
-Definition clients_ok (OkC : client -> Prop) (sigma : list sched_action) : Prop :=
-  Forall (fun a => match a with X c => OkC c | _ => True end) sigma.
+Fixpoint clients_ok (OkC : sys -> client -> Prop) (s : sys) (sigma : list sched_action) : Prop :=
+  match sigma with
+  | [] => True
+  | a :: t => match a with X c => OkC s c | _ => True end /\
+              match sys_step s a with Good s' => clients_ok OkC s' t | Fault _ => True end
+  end.
 
 Section Invariant2.
   Variable Inv : sys -> Prop.
   Variable HonW : env -> nat -> woracle -> worker -> Prop.
-  Variable OkC : client -> Prop.
+  Variable OkC : sys -> client -> Prop.
   Hypothesis Hstep : forall s l s', Inv s -> mstep s l s' -> hon_label2 HonW OkC s l -> Inv s'.
 
   Lemma msteps_inv2 : forall s ls s', msteps s ls s' -> Inv s ->
@@ -334,7 +339,7 @@ Section Invariant2.
     eapply Hstep; [exact HI|exact Hs|]. destruct l; simpl; auto; contradiction.
   Qed.
 
-  Lemma step_inv2 s a s' : Inv s -> hon_step HonW s a -> match a with X c => OkC c | _ => True end -> sys_step s a = Good s' -> Inv s'.
+  Lemma step_inv2 s a s' : Inv s -> hon_step HonW s a -> match a with X c => OkC s c | _ => True end -> sys_step s a = Good s' -> Inv s'.
   Proof.
     intros HI Hh Hc H. destruct a as [i k o|ks|d|c].
     - destruct s as [ns e clk]. simpl in H, Hh.
@@ -358,11 +363,11 @@ Section Invariant2.
     - simpl in H. eapply Hstep; [exact HI|apply ms_client; exact H|exact Hc].
   Qed.
 
-  Theorem micro_invariant2 : forall sigma s s', Inv s -> hon_run HonW s sigma -> clients_ok OkC sigma -> run s sigma = Good s' -> Inv s'.
+  Theorem micro_invariant2 : forall sigma s s', Inv s -> hon_run HonW s sigma -> clients_ok OkC s sigma -> run s sigma = Good s' -> Inv s'.
   Proof.
     induction sigma as [|a sigma IH]; intros s s' HI Hh Hc H; simpl in H.
     - inversion H; subst. exact HI.
-    - simpl in Hh. destruct Hh as (Ha&Ht). inversion Hc as [|x y C1 C2]; subst.
+    - simpl in Hh, Hc. destruct Hh as (Ha&Ht). destruct Hc as (C1&C2).
       destruct (sys_step s a) as [s1|] eqn:E; cbn [rbind] in H; [|discriminate].
       apply (IH s1 s'); [eapply step_inv2; eassumption|exact Ht|exact C2|exact H].
   Qed.
